@@ -91,7 +91,7 @@ def main():
     os.makedirs(work)
     tpath = os.path.join(sc, "trace.ndjson")
     reps = 10 if thorough else 2                  # hooked (recorded + perturbed) repetitions per case
-    max_hooked = 0 if thorough else 700          # 0 = all
+    max_hooked = 8000 if thorough else 700
     env = vlib.goenv()
     env["GORACE"] = "halt_on_error=1 exitcode=66"
     max_traced = 1500 if thorough else 300
